@@ -457,7 +457,17 @@ func (m *MdnsManager) processMdnsEntry(elements map[string]string, name, host st
 		if address.To4() == nil && address.IsLinkLocalUnicast() {
 			continue
 		}
-		newAddresses = append(newAddresses, address)
+		// one event may list the same address more than once
+		isNewElement := true
+		for _, item := range newAddresses {
+			if item.String() == address.String() {
+				isNewElement = false
+				break
+			}
+		}
+		if isNewElement {
+			newAddresses = append(newAddresses, address)
+		}
 	}
 	addresses = newAddresses
 
